@@ -78,8 +78,17 @@ func (ex *Exec) zeroValue(t types.Type) Value {
 	return nil
 }
 
+// coerce turns the untyped nil into the zero value of t.
+func (ex *Exec) coerce(v Value, t types.Type) Value {
+	if p, ok := v.(PtrV); ok && p.Obj == nil && p.Typ == nil {
+		return ex.zeroValue(t)
+	}
+	return v
+}
+
 // store writes value v of type t at (obj, off).
 func (ex *Exec) store(obj *Obj, off int, t types.Type, v Value) {
+	v = ex.coerce(v, t)
 	if obj == nil {
 		ex.unsupported("store through nil pointer")
 	}
@@ -326,7 +335,11 @@ func (ex *Exec) eval(e ast.Expr) Value {
 		return ex.eval(e.X)
 	case *ast.Ident:
 		if e.Name == "nil" {
-			return ex.zeroValue(ex.typeOf(e))
+			t := ex.typeOf(e)
+			if b, ok := t.(*types.Basic); ok && b.Kind() == types.UntypedNil {
+				return PtrV{}
+			}
+			return ex.zeroValue(t)
 		}
 		o := info.Uses[e]
 		if o == nil {
@@ -447,6 +460,26 @@ func (ex *Exec) evalBinary(e *ast.BinaryExpr) Value {
 		return ex.evalTerm(e.Y)
 	}
 	if mt.Kind == "ptr" || mt.Kind == "slice" || machType(ex.typeOf(e.Y)).Kind == "ptr" {
+		isNil := func(a ast.Expr) bool { id, ok := unparen(a).(*ast.Ident); return ok && id.Name == "nil" }
+		if isNil(e.X) || isNil(e.Y) {
+			other := e.X
+			if isNil(e.X) {
+				other = e.Y
+			}
+			var n bool
+			switch a := ex.eval(other).(type) {
+			case PtrV:
+				n = a.Obj == nil
+			case SliceV:
+				n = a.Obj == nil && a.Abs == nil
+			default:
+				ex.unsupported("nil comparison of %T", a)
+			}
+			if e.Op == token.NEQ {
+				n = !n
+			}
+			return BoolC(n)
+		}
 		x, y := ex.eval(e.X), ex.eval(e.Y)
 		var eq bool
 		switch a := x.(type) {
